@@ -35,7 +35,7 @@ def strat_fft(tier):
     return st.fixed_dictionaries({
         'shape': st.one_of(st.tuples(ax, ax).map(list), ax.map(lambda k: [k, k]), ax.map(lambda k: [1, k]), ax.map(lambda k: [k, 1])),
         'Q': st.one_of(st.integers(1, 4), st.sampled_from([1, 2, 1.5, 1.25, 3]), U.nice_float(1, 3).map(lambda v: round(v, 2))),
-        'kind': U.field_kinds, 'via': st.sampled_from(['function', 'wavefront']), 'seed': U.seeds})
+        'kind': U.field_kinds, 'via': st.sampled_from(['function', 'wavefront']), 'layout': U.layouts, 'seed': U.seeds})
 
 
 def check_fft(case, ctx):
@@ -43,7 +43,7 @@ def check_fft(case, ctx):
     from prysm import propagation as P
     from prysm.fttools import pad2d
     shape, Q = case['shape'], case['Q']
-    f = U.field(case['seed'], shape, case['kind'])
+    f = U.relayout(U.field(case['seed'], shape, case['kind']), case.get('layout', 'C'))
     padded = tuple(math.ceil(s * Q) for s in shape) if Q != 1 else tuple(shape)
     ctx.nt(shape[0] != shape[1] or shape[0] % 2 == 1 or shape[1] % 2 == 1 or case['kind'] != 'real' or Q > 1)
     ctx.label('via:' + case['via'], 'square' if shape[0] == shape[1] else ('row-or-col' if 1 in shape else 'nonsquare'),
@@ -133,14 +133,15 @@ def strat_free(tier):
         'shape': st.one_of(st.tuples(ax, ax).map(list), ax.map(lambda k: [k, k])),
         'wvl': st.sampled_from([0.5, 0.6328, 1.55, 10.6]), 'dx': st.sampled_from([0.01, 0.05, 0.2, 1.0]),
         'z1': z, 'z2': z, 'Q': st.sampled_from([1, 1, 2]), 'via': st.sampled_from(['function', 'tf', 'wavefront']),
-        'kind': U.field_kinds, 'prec': st.sampled_from([64, 64, 64, 32]), 'seed': U.seeds})
+        'kind': U.field_kinds, 'prec': st.sampled_from([64, 64, 64, 32]), 'layout': U.layouts, 'seed': U.seeds})
 
 
 def check_free(case, ctx):
     """angular-spectrum propagation: |H|=1, identity at z=0, P(-z)P(z)=id, P(z2)P(z1)=P(z1+z2), energy conserved."""
     from prysm import propagation as P
     shape, wvl, dx, z1, z2, Q, via, prec = (case[k] for k in ('shape', 'wvl', 'dx', 'z1', 'z2', 'Q', 'via', 'prec'))
-    f = U.field(case['seed'], shape, case['kind']).astype(complex)
+    f = U.relayout(U.field(case['seed'], shape, case['kind']).astype(complex), case.get('layout', 'C'))
+    f_before = f.copy()
     ctx.nt(shape[0] != shape[1] or shape[0] % 2 == 1 or shape[1] % 2 == 1 or case['kind'] != 'real' or Q > 1 or z1 < 0 or z2 != 0)
     ctx.label('via:' + via, 'prec%d' % prec, 'Q=%d' % Q, 'z1<0' if z1 < 0 else ('z1=0' if z1 == 0 else 'z1>0'),
               'square' if shape[0] == shape[1] else 'nonsquare')
@@ -178,6 +179,13 @@ def check_free(case, ctx):
         g12 = prop(np.asarray(g1), z2, 1)
         gs = prop(f, z1 + z2, Q)
         U.check_close(g12, gs, tol, 'free_space:additive', 'P(z2)P(z1) != P(z1+z2) for z1=%g z2=%g' % (z1, z2), atol=tol * math.sqrt(E))
+        U.check_equal(f, f_before, 'free_space:input-modified', 'propagation modified its input array')
+        # a transfer function handed out earlier stays what it was (no aliasing with anything later calls reuse)
+        H2 = ctx.call(P.angular_spectrum_transfer_function, tuple(padded), wvl, dx, z1)
+        Hc = np.array(H2, copy=True)
+        H2 *= 0
+        H3 = ctx.call(P.angular_spectrum_transfer_function, tuple(padded), wvl, dx, z1)
+        U.check_equal(np.asarray(H3), Hc, 'transfer_function:aliased-state', 'a caller editing a returned transfer function in place changed later ones')
 
 
 CLAUSES = [
